@@ -23,6 +23,8 @@ import (
 	"sort"
 	"strconv"
 	"strings"
+	"unicode"
+	"unicode/utf8"
 
 	"github.com/RoaringBitmap/roaring/v2"
 	"github.com/grafana/regexp"
@@ -432,9 +434,20 @@ func (q *Substring) setCase(k string) {
 	case "no":
 		q.CaseSensitive = false
 	case "auto":
-		// TODO - unicode
-		q.CaseSensitive = (q.Pattern != string(toLower([]byte(q.Pattern))))
+		q.CaseSensitive = (q.Pattern != string(toLower([]byte(q.Pattern)))) || hasNonASCIIUpper(q.Pattern)
 	}
+}
+
+// hasNonASCIIUpper reports whether s has an upper-case letter outside ASCII
+// (toLower and LowerRegexp only know A-Z), so that case:auto treats "Éab" like
+// "Eab": a pattern with an upper-case letter is case sensitive.
+func hasNonASCIIUpper(s string) bool {
+	for _, r := range s {
+		if r >= utf8.RuneSelf && unicode.IsUpper(r) {
+			return true
+		}
+	}
+	return false
 }
 
 func (q *Symbol) setCase(k string) {
@@ -450,7 +463,7 @@ func (q *Regexp) setCase(k string) {
 	case "no":
 		q.CaseSensitive = false
 	case "auto":
-		q.CaseSensitive = !q.Regexp.Equal(LowerRegexp(q.Regexp))
+		q.CaseSensitive = !q.Regexp.Equal(LowerRegexp(q.Regexp)) || hasNonASCIIUpper(q.Regexp.String())
 	}
 }
 
